@@ -7,12 +7,14 @@ from ..engine.pyindex import walk_no_nested
 
 ID = 'C42'
 TECHNIQUE = ('order-taint dataflow (sets and containers filled by iterating sets, one-level function summaries, sets held by other objects, sets handed to iterating callees, dicts filled from sets) '
-             'to order-sensitive sinks; id()/hash()/clock/pid/random values never flow into emitted text or sort keys; memo keys cover what the memoised value depends on; '
+             'to order-sensitive sinks; id()/hash()/clock/pid/random values never flow into emitted text or sort keys; memo keys cover what the memoised value depends on, attribute by attribute where the key holds only a projection of a parameter; '
              'no class-level mutable state mutated through instances; typestate of the compilation Context')
 DECIDES = ('D1/D1b: in Cython/Compiler, Build/Dependencies.py, Cache.py, Inline.py, Utils.py no set/frozenset (or list/tuple/dict built by iterating one, also through one level of calls, also when the set is an '
            'attribute of another object or is handed to a callee that iterates its parameter) is iterated into an order-sensitive effect (emitting code, appending, joining, list()/tuple(), yield, yield from) without sorted(); '
            'D2: id()/hash() of objects never flows into strings and is never a sort key; D4: clock, process id and random sources never reach code-writer calls or returned strings; '
            'D3/D3g: every memo container whose cached value depends on a parameter includes it in the key (whole mapping, not single entries); '
+           'D3p: a parameter that enters a memo key only through projections (p.attr, p.method(), len/type/truth of p, the keys of a **mapping) is read by the '
+           'memoised value only through those projections - attribute reads by prefix, method calls by the union of the self-attributes every compiler method of that name reads; '
            'D5: no class-level mutable container is mutated through instances without being rebound per instance; D6: compile_multiple never reuses a Context for a second source.')
 NOT_DECIDED = ('nondeterminism from file-system listing order (it changes the order of module lists, not a generated file), parallel build scheduling, object addresses used as set-iteration order where all '
                'consumers are order-insensitive (exempted case by case), and state shared through module-level globals other than memo containers.')
@@ -24,9 +26,11 @@ MUTATIONS = [
     ('Cython/Compiler/Code.py, ModuleNode.py', 'label-with-id (.format), label-id-concat, const-name-hash, sort-by-id', 'D2'),
     ('Cython/Compiler/Code.py, Symtab.py', 'header-timestamp, header-pid, tempname-random', 'D4'),
     ('Cython/Compiler/PyrexTypes.py, Code.py', 'typeid-cache-no-scope, utilcache-no-context, specialize-cache-name-only', 'D3 / D3g'),
+    ('Cython/Compiler/PyrexTypes.py, Code.py, Symtab.py', 'seed C42h (key scope.name, value scope.mangle()), typeid-key-scope-truth, typeid-key-and-name, typeid-key-getattr-name, typeid-key-type-of-scope, '
+     'typeid-key-string-name, tempita-cache-context-keys, tempita-cache-context-len, specialize-key-kwarg-names', 'D3p'),
     ('Cython/Compiler/Symtab.py', 'idcounters-class-level', 'D5'),
     ('Cython/Compiler/Main.py', 'context-reused', 'D6'),
-    ('*', 'silent: p-sorted-key, p-list-sort, p-membership-only, p-typeid-key-reordered, p-id-in-repr, p-context-reset-else, p-fused-allbuf-set, p-pid-tmpfile, p-glob-unsorted', ''),
+    ('*', 'silent: p-sorted-key, p-list-sort, p-membership-only, p-typeid-key-reordered, p-id-in-repr, p-context-reset-else, p-fused-allbuf-set, p-pid-tmpfile, p-glob-unsorted, p-typeid-key-helper, p-typeid-value-helper, p-typeid-key-redundant-name, p-typeid-early-return', ''),
 ]
 
 _B = 'benign: '
@@ -147,4 +151,4 @@ def rule_D3(ctx):
 
 
 def run(ctx):
-    return [sC42.rule_D1(ctx), sC42.rule_D1b(ctx), rule_D2(ctx), rule_D3(ctx), sC42.rule_D3g(ctx), sC42.rule_D4(ctx), sC42.rule_D5(ctx), sC42.rule_D6(ctx)]
+    return [sC42.rule_D1(ctx), sC42.rule_D1b(ctx), rule_D2(ctx), rule_D3(ctx), sC42.rule_D3g(ctx), sC42.rule_D3p(ctx), sC42.rule_D4(ctx), sC42.rule_D5(ctx), sC42.rule_D6(ctx)]
